@@ -69,6 +69,11 @@ def special_builds(ctx, quick_big=False):
         cases.append(build_case(None, rng.randrange(4), None, None, pre + b"hello"))
         cases.append(build_case(None, None, None, None, pre))
         cases.append(build_case(2, 1, None, None, pre + b"1234"))
+    # every byte value inside an otherwise alphanumeric / numeric payload (automatic mode): a character set with one wrong member
+    for b in range(256):
+        cases.append(build_case(None, 1, None, None, b"AB" + bytes([b]) + b"C1"))
+        if not ctx.quick or b % 4 == 0:
+            cases.append(build_case(None, 2, None, None, b"12" + bytes([b]) + b"34"))
     for fm in (None, 0, 1, 2):
         for e in (None, 0, 3):
             for v in (None, 0, 9, 39):
@@ -1329,7 +1334,7 @@ def rgba_hex(rng, alpha=None):
 def image_string(rng):
     """an image reference composed from parts: scheme / media type / parameters / encoding marker / body, with
     XML-special characters possible in every part"""
-    sp = ["&", "<", ">", '"', "'", "&amp;", "\t", "\n", "\r", " ", "]]>", "&#38;", "\u00e9", "%20", "\U0001F680"]
+    sp = ["&", "<", ">", '"', "'", "&amp;", "\t", "\n", "\r", " ", "]]>", "&#38;", "\u00e9", "%20", "\U0001F680", "{0}", "{1}", "{2}", "{3}", "{}", "{", "}"]
     def junk(k):
         return "".join(rng.choice(sp + list("abcXYZ019-_./=;,:+")) for _ in range(rng.randrange(k)))
     kind = rng.randrange(5)
@@ -1348,7 +1353,7 @@ def image_string(rng):
 
 IMAGE_STRINGS = ["https://example.com/logo.png", "data:image/png;base64,iVBORw0KGgo=", "./assets/a b.svg",
                  "data:image/svg+xml;utf8,<svg xmlns=\"http://www.w3.org/2000/svg\"/>", "data:text/plain,a&b", "data:,'",
-                 "https://x.y/?a=1&b=\"2\"<>", "it's <&> \"q\"", "&amp;", "/tmp/\u00e9\u20ac\U0001F680.png", "a\tb\nc\rd", "]]>", "&#38;", ""]
+                 "https://x.y/?a=1&b=\"2\"<>", "it's <&> \"q\"", "&amp;", "https://x.y/logos/{0}.png", "{1}{2}{3}{}", "{{0}}.svg", "/tmp/\u00e9\u20ac\U0001F680.png", "a\tb\nc\rd", "]]>", "&#38;", ""]
 
 
 def symbol_matrices(ctx, versions):
@@ -1552,6 +1557,12 @@ def run_C13(ctx):
             cases.append("raster %d %s shape=0 margin=1 fg=000000ff bg=ffffff%02x" % (n, hx, al))
             cases.append("raster %d %s shape=0 margin=1 fg=1020c0%02x bg=00000000 fitw=%d" % (n, hx, al, (n + 2) * 4))
             cases.append("raster %d %s shape=1 margin=0 fg=000000ff bg=%02x%02x%02x%02x fitw=%d" % (n, hx, rng.randrange(96, 256), rng.randrange(256), rng.randrange(256), rng.randrange(64, 255), n * 5))   # clearly not black
+    # image-related setters without / with an image must not touch the background or the modules
+    if mats:
+        n, hx = mats[min(mats)]
+        cases.append("raster %d %s shape=0 margin=2 bg=ffffffff ibg=ff0000ff fitw=%d" % (n, hx, (n + 4) * 4))
+        cases.append("raster %d %s shape=0 margin=2 ibg=00ff00ff bg=ffffffff ishape=1 isize=3 igap=1 fitw=%d" % (n, hx, (n + 4) * 4))
+        cases.append("raster %d %s shape=1 margin=1 fg=000000ff bg=ffff00ff ibg=0000ffff fitw=%d" % (n, hx, (n + 2) * 5))
     # a large request (beyond 4096 pixels), and other values in the QRCode's level / mask fields
     if mats:
         n, hx = mats[min(mats)]
@@ -1841,7 +1852,7 @@ def run_C17(ctx):
                 ops.append("isize=%s,%s" % (rng.choice(["5", "7.5", "3"]), rng.choice(["0", "1", "0.5"])))
             elif k == 8:
                 ln = rng.choice([0, 1, 2, 2, 2, 3, 4])
-                ops.append("ipos=" + (",".join(rng.choice(["10", "12.5", "8.25"]) for _ in range(ln)) if ln else "-"))
+                ops.append("ipos=" + (",".join(rng.choice(["10", "12.5", "8.25", "0", "0"]) for _ in range(ln)) if ln else "-"))
             elif k == 9:
                 ops.append("ecl=%d" % rng.randrange(4))
             else:
@@ -1860,6 +1871,10 @@ def run_C17(ctx):
         cases.append("wasm 78 ipos=%s" % pos)
         cases.append("wasm 78 image=%s ipos=%s" % (hexs("i.png"), pos))
         cases.append("wasm 78 image=%s isize=5,1 ipos=%s" % (hexs("i.png"), pos))
+    for pos in ["0,0", "0,5", "7.5,0"]:
+        cases.append("wasm 78 image=%s ipos=%s" % (hexs("i.png"), pos))
+        cases.append("wasm 78 image=%s ipos=5,6 ipos=%s" % (hexs("i.png"), pos))
+        cases.append("wasm 78 image=%s isize=0,0 ipos=%s" % (hexs("i.png"), pos))
     cases.append("wasm 78 isize=5,1")
     cases.append("wasm 78 image=%s isize=5,1" % hexs("i.png"))
     check_wasm_cases(ctx, cases)
@@ -1931,7 +1946,7 @@ def check_image_cases(ctx, cases, stream="svg_image"):
             if pos is not None:
                 if abs((fx + fw / 2) - pos[0]) > tol or abs((fy + fh / 2) - pos[1]) > tol:
                     bad.append("frame not centred on the requested position")
-            elif abs((fx + fw / 2) - S / 2) > 0.5 + tol:
+            elif abs((fx + fw / 2) - S / 2) > tol or abs((fy + fh / 2) - S / 2) > tol:
                 bad.append("frame not centred on the symbol")
         if bad:
             ctx.direct_failure("frame_geometry", {"case": c}, "; ".join(bad))
